@@ -427,7 +427,7 @@ fn judge_inner(rt: &tokio::runtime::Runtime, r: &mut Report, case: &Case) {
 
 /// one valid anonymous request per operation, encoded by aws-sdk-s3
 pub fn capture_corpus(rt: &tokio::runtime::Runtime, seed: u64) -> Vec<(String, RawRequest)> {
-    let cfg = LoopCfg { host: HostCfg::None, vhost: false, auth: false, hops: 1 };
+    let cfg = LoopCfg { host: HostCfg::None, vhost: false, auth: false, hops: 1, route: false };
     let mut v = Vec::new();
     for o in OPS.iter().filter(|o| o.in_model && o.name != "WriteGetObjectResponse") {
         for attempt in 0..8 {
